@@ -127,6 +127,8 @@ def main():
                 continue
             if st.get("keep"):
                 results[i] = r
+            if st.get("bind_result") is not None and r is not None:
+                slots[st["bind_result"]] = r
             print("RET %d %s" % (i, fmt(st["ret"], r, i)), flush=True)
         except (TypeError, OverflowError, ValueError, AttributeError, KeyError, IndexError, AssertionError) as e:
             print("ERR %d %s %s" % (i, type(e).__name__, str(e).replace("\n", " ")[:160]), flush=True)
